@@ -419,6 +419,13 @@ def _analyze_redirects(
     return decisions
 
 
+# Wrapper options whose (possibly non-numeric) argument is a separate word
+_WRAPPER_FLAGS_WITH_ARG = {
+    "timeout": frozenset({"-s", "--signal", "-k", "--kill-after"}),
+    "nice": frozenset({"-n", "--adjustment"}),
+}
+
+
 def _analyze_simple_command(
     words: list[str], config: Config, cwd: Path, *, remote: bool = False
 ) -> Decision:
@@ -457,6 +464,10 @@ def _analyze_simple_command(
             token = tokens[j]
             if token.isdigit() or token.replace(".", "").isdigit():
                 j += 1
+                continue
+            if token in _WRAPPER_FLAGS_WITH_ARG.get(base, ()):
+                # timeout -s KILL 5 cmd: the signal name is not the command
+                j += 2
                 continue
             if token.startswith("-") and token != "--":
                 j += 1
